@@ -24,6 +24,10 @@ RetMatches(e, o) ==
          /\ \A k \in 1..Len(comps) : Len(comps[k]) = Cardinality(ToSet(comps[k]))          \* no node twice in a component
          /\ \A j, k \in 1..Len(comps) : j # k => ToSet(comps[j]) \cap ToSet(comps[k]) = {}  \* each node in one component
          /\ {ToSet(comps[k]) : k \in 1..Len(comps)} = o.ret                                 \* exactly the mutual-reachability classes
+    [] e.op = "sccs_some" -> LET comps == e.out.ret IN       \* the first k components of an abandoned generator
+         /\ Len(comps) = (IF e.k < Cardinality(o.ret) THEN e.k ELSE Cardinality(o.ret))
+         /\ \A k \in 1..Len(comps) : Len(comps[k]) = Cardinality(ToSet(comps[k])) /\ ToSet(comps[k]) \in o.ret
+         /\ \A j, k \in 1..Len(comps) : j # k => ToSet(comps[j]) \cap ToSet(comps[k]) = {}
     [] e.op \in {"rev", "sub", "clone"} -> GraphOf(e.out.ret) = o.ret
 Judge(e, P) ==
   IF e.op = "new" THEN
